@@ -34,6 +34,7 @@ def main():
     ap.add_argument('--budget', default='40')
     ap.add_argument('--seed', default='1')
     ap.add_argument('--keep-json', default=None)
+    ap.add_argument('--skip-tests', action='store_true', help='regression mode: do not re-run the pinned test-suite')
     a = ap.parse_args()
     d = os.path.abspath(a.dir)
     meta = json.load(open(os.path.join(d, 'meta.json')))
@@ -58,7 +59,7 @@ def main():
             rc1, o1 = sh([PY, '-B', os.path.join(d, 'demo.py'), wt], cwd=d, env=env, timeout=600)
             res['demo_patched_rc'] = rc1
             res['demo_patched_tail'] = o1[-300:]
-            rct, ot = sh([PY, '-m', 'pytest', '-q', '-p', 'no:cacheprovider', '-n', '8', '--continue-on-collection-errors'], cwd=wt, env=env, timeout=1200)
+            rct, ot = (0, '') if a.skip_tests else sh([PY, '-m', 'pytest', '-q', '-p', 'no:cacheprovider', '-n', '8', '--continue-on-collection-errors'], cwd=wt, env=env, timeout=1200)
             m = re.search(r'(\d+) passed', ot)
             res['tests_passed'] = int(m.group(1)) if m else 0
             res['tests_failed'] = bool(re.search(r'\d+ failed', ot))
